@@ -796,6 +796,18 @@ func (e *Enc) sentinelConst(g *ssa.Global) (Term, bool) {
 	if !e.declSet[name] {
 		t := e.declare(name, SInt)
 		e.assumeGlobal(not(eq(t, intLit(0))), "error sentinel "+n+" is non-nil")
+		seen := false
+		for _, other := range e.sentinels {
+			if other.S == t.S {
+				seen = true
+				continue
+			}
+			e.assumeGlobal(not(eq(t, other)), "distinct error sentinels hold distinct values")
+		}
+		if !seen {
+			e.sentinels = append(e.sentinels, t)
+		}
+		e.assumption("distinct package-level error sentinels hold distinct error values (each is initialised by its own errors.New / fmt.Errorf)")
 		e.assumption("package-level error sentinels (Err*, EOF, Canceled, DeadlineExceeded) are non-nil constants, never reassigned")
 		return t, true
 	}
